@@ -16,9 +16,9 @@ fn apply(h: &mut Hist, ctx: &mut Ctx, letter: usize) {
             let d = h.to_dev.last().unwrap().1.clone();
             h.handle_request(ctx, &m, &d);
         }
-        1 | 2 => { // handle_request(malformed-plaintext): 1 = not CBOR, 2 = CBOR but not a DeviceRequest
+        1 | 2 | 13 => { // handle_request(malformed-plaintext): 1 = not CBOR, 2 = CBOR but not a DeviceRequest, 13 = the EMPTY plaintext (not CBOR either)
             let n = sess::peek_device(&h.sim.dev).rdr_ctr.wrapping_add(1);
-            let (pt, kind): (Vec<u8>, &str) = if letter == 1 { (vec![0xff, 0x00, 0x13], "notcbor") } else { (vec![0xa1, 0x61, 0x78, 0x01], "notreq") };
+            let (pt, kind): (Vec<u8>, &str) = if letter == 1 { (vec![0xff, 0x00, 0x13], "notcbor") } else if letter == 13 { (vec![], "notcbor") } else { (vec![0xa1, 0x61, 0x78, 0x01], "notreq") };
             let m = h.sim.craft_reader_msg(n, &pt);
             let d = format!("ct:r:{}:{}:{}:f", h.sim.id, n, kind);
             h.to_dev.push((m.clone(), d.clone()));
@@ -38,10 +38,11 @@ fn apply(h: &mut Hist, ctx: &mut Ctx, letter: usize) {
         9 => h.submit(ctx, false),
         10 => h.submit(ctx, true),
         11 => h.response_ready(ctx),
+        12 => { h.retrieve(ctx); }
         _ => { h.retrieve(ctx); }
     }
 }
-const LETTERS: usize = 13;
+const LETTERS: usize = 14;
 
 pub fn run(ctx: &mut Ctx) {
     let pki = Pki::new(&mut ctx.rng);
